@@ -14,6 +14,13 @@
     * cryptography: `sigOK pk payload sig` — abstract; idealised only by explicit hypotheses (VProps.C13).
     * canonical JSON: the signing payload is `canon (message without "signatures")`; the driver runs
       `canon := encodeCanon` (VModel.Json, C01).
+
+  Round 3 (K5 / K7).  A Go string that is not valid UTF-8 cannot be carried by the signed JSON object (json.Marshal
+  rewrites every invalid sequence to U+FFFD, on both sides): `Sign` refuses such a method / URI / origin /
+  destination and `readHTTPRequest` refuses a transmitted request that has one (`fieldNotUTF8`).  SignJSON and
+  VerifyJSON refuse a message with duplicate member names or ill-formed strings (signing.go: checkStrictJSON);
+  in json.Marshal(fields) only the embedded raw content can be such a text: `contentStrict`, checked by `sign`
+  and — inside the key ring's VerifyJSON — by `gatedCheck`.
 -/
 import VModel.Json
 import VModel.Resolve
@@ -70,6 +77,23 @@ def contentValue (c : Option Bytes) : Option (Option JVal) :=
     else match parse raw with
       | some p => some (some p.toJVal)
       | none => none
+
+/-- The gate of SignJSON / VerifyJSON (signing.go: checkStrictJSON) on json.Marshal(fields).  The encoder writes
+    the string fields and the signature map itself (distinct names, well-formed strings); the raw content is
+    embedded as it is (compacted), so the message passes the gate iff the content does: every string and member
+    name valid UTF-8 with properly paired surrogate escapes, no object with two members of the same name. -/
+def contentStrict (c : Option Bytes) : Bool :=
+  match c with
+  | none => true
+  | some raw =>
+    if raw.isEmpty then true
+    else match parse raw with
+      | some p => p.wellFormed && p.noDupKeys
+      | none => false
+
+/-- the four signed string fields are valid UTF-8 -/
+def fieldsUTF8 (f : Fields) : Bool :=
+  utf8Valid f.destination && utf8Valid f.method && utf8Valid f.origin && utf8Valid f.uri
 
 /-! ## isSafeInHTTPQuotedString, header rendering -/
 
@@ -192,6 +216,7 @@ structure HttpReq where
 
 inductive ReadErr where
   | contentType | notJSONType | notUTF8 | badXMatrix | differentOrigins
+  | fieldNotUTF8        -- method / request URI / origin / destination is not valid UTF-8
   deriving Repr, DecidableEq
 
 /-- insert / overwrite in `Signatures[origin]` -/
@@ -207,11 +232,13 @@ def readAuth : List Str → Fields → Except ReadErr Fields
     if a.scheme != xMatrix then readAuth rest f           -- unknown types of Authorization are ignored
     else if a.origin.isEmpty || a.key.isEmpty || a.sig.isEmpty then .error .badXMatrix
     else if !f.origin.isEmpty && f.origin != a.origin then .error .differentOrigins
+    else if !(utf8Valid a.origin && utf8Valid a.destination) then .error .fieldNotUTF8
     else readAuth rest { f with origin := a.origin, destination := a.destination, signatures := setSig f.signatures a.key a.sig }
 
 def applicationJSON : Bytes := bz!"application/json"
 
 def readHTTPRequest (req : HttpReq) : Except ReadErr Fields :=
+  if !(utf8Valid req.method && utf8Valid req.requestURI) then .error .fieldNotUTF8 else
   let f0 : Fields := ⟨none, [], req.method, [], req.requestURI, []⟩
   let withContent : Except ReadErr Fields :=
     if req.body.length != 0 then
@@ -310,10 +337,15 @@ def sign (f : Fields) (serverName keyID : Str) (mkSig : JVal → Str) : Except S
   if !f.origin.isEmpty && f.origin != serverName then .error .sign
   else
     let f := { f with origin := serverName }
+    -- a field that is not valid UTF-8 cannot be carried by the signed JSON object: refused
+    if !fieldsUTF8 f then .error .sign else
+    -- (residue: a key ID, or the text of an earlier signature, that is not valid UTF-8)
     if !marshalable f || !utf8Valid keyID then .error .unmodelled else
     match contentValue f.content with
     | none => .error .sign
     | some content =>
+      -- SignJSON(json.Marshal(fields)) begins with checkStrictJSON
+      if !contentStrict f.content then .error .sign else
       let canonContent : Except SendErr (Option Bytes) := match f.content with
         | none => .ok none
         | some raw => if raw.isEmpty then .ok none else
@@ -389,5 +421,15 @@ def keyRingVerifier (table : List KeyEntry) (dbError : Bool) (wallclock : Nat)
     else if ids.any (fun kv =>
         table.any (fun k => k.server == origin && k.keyID == kv.1 && wasValidAt wallclock k atTs && sigOK k.pk obj kv.2))
       then .accepted else .rejected
+
+/-- `VerifyJSON` as the key ring runs it on json.Marshal(request.fields), whose content is the transmitted body:
+    the gate of signing.go (`contentStrict`), then base64 decoding + ed25519.Verify (`sigOK`). -/
+def gatedCheck (body : Bytes) (sigOK : Nat → JVal → Str → Bool) : Nat → JVal → Str → Bool :=
+  fun pk obj sig => contentStrict (some body) && sigOK pk obj sig
+
+/-- VerifyHTTPRequest with a gomatrixserverlib.KeyRing (key database, no fetchers) as the JSONVerifier. -/
+def verifyWithKeyRing (req : HttpReq) (now : Millis) (destination : Str) (isLocal : Option (Str → Bool))
+    (table : List KeyEntry) (dbError : Bool) (wallclock : Nat) (sigOK : Nat → JVal → Str → Bool) : Except Refusal Fields :=
+  verifyHTTPRequest req now destination isLocal (keyRingVerifier table dbError wallclock (gatedCheck req.body sigOK))
 
 end V.FedReq
